@@ -55,7 +55,7 @@ def lean_deps(module, seen=None):
     return seen
 
 
-def obligations(prop, log):
+def obligations(prop, log, tier="quick"):
     """build the property's theorems and audit their axioms; returns (n_obligations, n_discharged, broken list)"""
     table = json.load(open(os.path.join(HERE, "obligations.json")))
     entry = table.get(prop)
@@ -111,6 +111,13 @@ def obligations(prop, log):
             discharged += 1
     if rc != 0 and not broken:
         broken.append("axiom audit failed: " + out[-300:])
+    if tier == "thorough":
+        # independent re-check of the compiled module by the toolchain's external checker
+        rc, out = sh(["lake", "env", "leanchecker", module], cwd=LEAN, timeout=1500)
+        if rc != 0:
+            broken.append("leanchecker rejected %s: %s" % (module, out[-300:]))
+        else:
+            log.append("leanchecker accepted " + module)
     return len(theorems), discharged, broken, theorems
 
 
@@ -218,7 +225,7 @@ def main():
         sys.exit(0 if ok else 1)
 
     # 1. obligations
-    n_obl, n_dis, broken, theorems = obligations(prop, log)
+    n_obl, n_dis, broken, theorems = obligations(prop, log, tier)
     for b in broken:
         print("OBLIGATION-BROKEN: " + b)
 
